@@ -17,12 +17,17 @@ CASES = {'quick': 4000, 'thorough': 100000}
 PARALLEL = False          # to_wire needs the cookie texts of the implementation run, which is memoised in-process
 ALLOWED_AXIOMS = ()
 RULE = ('SignedCookieSessionFactory CALLED as a caller may (leading arguments positional in the documented order / keywords / omitted) with option values AS GIVEN (int / bool / float / digit string / None / refused '
-        'strings for timeout, reissue_time, max_age; any truth value for set_on_exception; salt None / empty / latin-1 / not); '
+        'strings for timeout, reissue_time, max_age; any truth value for set_on_exception; salt None / empty / latin-1 / not; '
+        'serializer= default / strict custom / shipped PickleSerializer); '
         'chains of 1-6 requests through the factory, each presenting the cookie last set / a tampered '
         'variant / none; 0-6 operations per request from the 23 public operations, optional arguments given / omitted / passed by keyword; clock advanced by 0,1,reissue+-1,'
         'timeout+-1; options varied.  non-trivial = the chain set at least one cookie AND a later request presented that '
         'cookie or an edit of it (so persistence or rejection was really exercised); distinct by full case')
 ASSUMPTIONS = [
+    'serializer= : None (default JSONSerializer), a strict custom serializer with the JSON wire format that accepts only '
+    'builtin container types, or the shipped deprecated PickleSerializer (judged against the same chain run with the '
+    'default serializer: equal observations except for the cookie text; only for cookie sources none/last/garbage/stale); '
+    'a given serializer is assumed to have JSON semantics in the model',
     'stored values are JSON data (null, bool, int, str, list, str-keyed dict): tuples and non-string keys do not survive JSON',
     'time.time() is a float on a grid of 0.25 s (exactly representable, so every float operation of the code is exact); '
     'int() truncations are modelled; time stamps are whole seconds (int()), so timeout/reissue are measured from the stamp in '
@@ -302,6 +307,30 @@ DOC_DEFAULTS = {'cookie_name': 'session', 'max_age': None, 'path': '/', 'domain'
 CASE_KEY = {'set_on_exception': 'soe', 'reissue_time': 'reissue'}
 
 
+class _StrictJSON:
+    """a custom `serializer=` of the kind the documentation allows (loads / dumps, ValueError for malformed input):
+    the wire format of the default JSONSerializer, but -- like msgpack / cbor / orjson-style encoders, or pickle for
+    classes it cannot import -- it only accepts the BUILTIN container types"""
+
+    def __init__(self):
+        from webob.cookies import JSONSerializer
+        self.inner = JSONSerializer()
+
+    def _check(self, v):
+        if isinstance(v, (dict, list, tuple)):
+            if type(v) not in (dict, list, tuple):
+                raise TypeError('cannot serialize %s' % type(v).__name__)
+            for x in (v.values() if isinstance(v, dict) else v):
+                self._check(x)
+
+    def dumps(self, appstruct):
+        self._check(appstruct)
+        return self.inner.dumps(appstruct)
+
+    def loads(self, bstruct):
+        return self.inner.loads(bstruct)
+
+
 def call_args(o):
     """(npos, [per documented parameter: ('given', value) | None]) -- how the case calls the factory: the first
     `npos` arguments positionally (documented order; a value the case does not mention is written out as its
@@ -316,6 +345,8 @@ def call_args(o):
             out.append(None)
         elif name in ('timeout', 'reissue_time', 'set_on_exception', 'hashalg', 'salt'):
             out.append(('given', o.get(k, DOC_DEFAULTS[name])))     # always passed (as before round 6)
+        elif name == 'serializer':
+            out.append(('given', o['serializer']) if o.get('serializer') in ('strict', 'pickle') else None)
         elif k in o:
             out.append(('given', o[k]))
         elif d < npos:
@@ -331,6 +362,13 @@ def _factory(o):
     npos, args = call_args(o)
     pos = [a[1] for a in args[:npos]]
     kw = {DOC_ORDER[d]: a[1] for d, a in enumerate(args) if d >= npos and a is not None}
+    if kw.get('serializer') == 'strict':
+        kw['serializer'] = _StrictJSON()
+    elif kw.get('serializer') == 'pickle':
+        import warnings
+        with warnings.catch_warnings():
+            warnings.simplefilter('ignore')
+            kw['serializer'] = _impl['ps'].PickleSerializer()
     return _impl['ps'].SignedCookieSessionFactory(*pos, **kw)
 
 
@@ -414,7 +452,7 @@ def _arg_dict(o):
 
 def _do_op(sess, o):
     n = o['op']
-    if o.get('ksub') and 'k' in o:
+    if o.get('ksub') and 'k' in o:      # (a str subclass is a leaf: also the strict serializer takes it)
         o = dict(o, k=_StrSub(o['k']))
     # optional arguments that the case does not give are OMITTED in the call (the model takes the documented default:
     # ISession.flash(msg, queue='', allow_duplicate=True), pop_flash/peek_flash(queue=''), dict.get/setdefault -> None);
@@ -643,7 +681,37 @@ def _check_attrs(o, header, name):
 _memo = {}
 
 
+PICKLE_SRCS = ('none', 'last', 'garbage', 'stale')
+
+
 def _chain(case):
+    """serializer='pickle' (the shipped, deprecated pyramid.session.PickleSerializer -- the legacy configuration):
+    the chain is run with it, and judged as the SAME chain with the default serializer is: the observations must
+    be those of the JSON twin except for the cookie TEXT, which is therefore replaced by the twin's (the model,
+    its digest tables and the presented texts all follow the twin).  Only for chains whose cookie sources do not
+    depend on the text itself (PICKLE_SRCS)."""
+    if case['opts'].get('serializer') != 'pickle':
+        return _chain_raw(case)
+    key = 'P' + json.dumps(case, sort_keys=True)
+    if key in _memo:
+        return _memo[key]
+    twin = json.loads(json.dumps(case))
+    del twin['opts']['serializer']
+    chj, chp = _chain_raw(twin), _chain_raw(case)
+    out = dict(chj)
+    if chp['obs'] == ['factory-raises'] or chj['obs'] == ['factory-raises']:
+        out['obs'] = chp['obs']
+    else:
+        obs = json.loads(json.dumps(chp['obs']))
+        for ob, oj in zip(obs[0], chj['obs'][0]):
+            if ob[0] == 0 and oj[0] == 0 and ob[4][0] == 1 and oj[4][0] == 1:
+                ob[4][1] = oj[4][1]                 # same outcome: take the twin's text
+        out['obs'] = obs
+    _memo[key] = out
+    return out
+
+
+def _chain_raw(case):
     """Runs the chain on the implementation; returns observation + every cookie text seen."""
     key = json.dumps(case, sort_keys=True)
     if key in _memo:
@@ -982,6 +1050,7 @@ def kinds(case, obs):
     if not o.get('defaults') and 'salt' in o:
         out.add('salt-%s' % ('none' if o['salt'] is None else 'empty' if o['salt'] == '' else 'default'
                              if o['salt'] == 'pyramid.session.' else 'custom'))
+    out.add('serializer-%s' % (o.get('serializer') or 'default'))
     npos = 1 if o.get('defaults') else o.get('npos', 1)
     out.add('call-keywords-only' if npos == 1 else 'call-positional-%s' % ('2..8' if npos < 9 else npos))
     if obs == ['factory-raises']:
